@@ -147,10 +147,50 @@ def r4_text_codec_buffer(cx):
                  ("" if bad is None else ": for l = %d it has %s positions but %d digits can be produced" % bad), how="arith")
 
 
+def r5_family_split_by_variant(cx):
+    """"Any list is recovered exactly": the encoder sorts the addresses into the IPv4 and the IPv6 section by the
+    variant of the SocketAddr alone and stores the matched value itself - an address is never moved to the other
+    family or rebuilt (an IPv4-mapped IPv6 address written as IPv4 decodes as a different address).  Rule: in
+    peerlist_encode every push into one of the two section lists pushes the payload of the matched variant, and the
+    only branch deciding it inside the loop is the switch on that variant."""
+    from ..decision import enum_switch_edges
+    prog = cx.prog
+    enc = [b for b in prog.bodies if b.path == "beacon::BeaconSerializer::<TS>::peerlist_encode"]
+    if len(enc) != 1:
+        raise AnchorError("peerlist_encode not found")
+    enc = enc[0]
+    cx.touch(enc)
+    var_edges = {}
+    for (edge, place, ty, val, is_oth) in enum_switch_edges(enc):
+        if ty.k == "adt" and ty.d["path"].endswith("net::SocketAddr") and not is_oth:
+            var_edges[edge] = val
+    cx.floor("variant-edges", len(var_edges), 2, "switch edges on the SocketAddr variant in peerlist_encode")
+    pushes = []
+    for ci, ct in enc.calls():
+        if callee_is(ct, "smallvec::SmallVec::push", "vec::Vec::push") and len(ct["args"]) == 2:
+            ety = enc.place_ty(op_place(ct["args"][1])) if op_place(ct["args"][1]) is not None else None
+            if ety is not None and ety.k == "adt" and ety.d["path"].endswith(("net::SocketAddrV4", "net::SocketAddrV6")):
+                pushes.append((ci, ct, "V4" if ety.d["path"].endswith("V4") else "V6"))
+    cx.exact("section-pushes", len(pushes), 2, "pushes into the IPv4 / IPv6 section lists")
+    for ci, ct, fam in pushes:
+        r = deep_root(enc, ct["args"][1])
+        from_payload = r is not None and any(e["k"] == "downcast" and e.get("v") == fam for e in r.get("p", []))
+        cx.check("pushes-matched-value:" + fam, from_payload, site_of(enc, ci), "the %s section receives the payload of SocketAddr::%s unchanged" % (fam, fam))
+        ctl = [e for e in enc.cfg.controlling_edges(ci) if enc.blocks[e[1]]["term"]["k"] == "switch"]
+        loops = [li for li in loops_of(enc) if ci in li.blocks]
+        inloop = [e for e in ctl if loops and e[1] in min(loops, key=lambda l: len(l.blocks)).blocks]
+        exits = set()
+        for li in loops:
+            exits |= {src for (src, _dst) in li.exhaust_exits}
+        foreign = [e for e in inloop if e not in var_edges and e[1] not in exits]
+        cx.check("split-by-variant-only:" + fam, not foreign, site_of(enc, ci), "inside the loop only the variant of the address decides the section (no further condition)")
+
+
 RULES = [
     ("C17.R1", r1_extraction_total, "beacon extraction is total: panic sites proved or reviewed; the scan advances"),
     ("C17.R2", r2_lossy_codec_repaired, "decoded beacon bytes are length-restored before positional use (base-62 drops leading zero bytes)"),
     ("C17.R3", r3_age_window_is_modular, "the age window is decided in modular 16-bit arithmetic in both directions"),
+    ("C17.R5", r5_family_split_by_variant, "the encoder sorts addresses into the IPv4 / IPv6 sections by their variant alone and stores them unchanged"),
     ("C17.R4", r4_text_codec_buffer, "the text codec's work buffer holds every digit of the encoded body (premise of the reviewed index sites)"),
 ]
 
